@@ -23,7 +23,8 @@ pub const ENTRY: Entry = Entry {
            single bits, their complements and byte patterns and all 33 fault choices. (c) ParallelInterface on 8- and 16-bit buses: \
            roots = WR/DC/data initial levels; actions = send_command / send_pixels / send_repeated_pixel over words {00,FF,2C,A5} \
            with equal consecutive words, N in 1..3, counts 0..4, optionally one failing data pin; invariant: words sampled at WR \
-           rising edges (with DC) == the expected sequence (a prefix of it if the call reported an error). (d) repeat counts whose \
+           rising edges (with DC) == the expected sequence (a prefix of it if the call reported an error). (e) every history of 3 calls over reduced alphabets WITHOUT state merging (bus level with faults, interface \
+           level fault-free), as a guard against hidden state outside the key. (d) repeat counts whose \
            strobe count exceeds 2^32: the call must still be strobing when a 4096-operation budget runs out (quick), or produce \
            exactly count*N rising edges (thorough). Non-trivial = transitions on which an injected fault was consumed, or that \
            changed the cached value.",
@@ -294,7 +295,7 @@ impl Sys for IfaceSys {
             let exp = c.expected();
             let name = match c {
                 TCall::Cmd { .. } => "send_command",
-                TCall::Pixels { .. } | TCall::PixelsUnfused { .. } => "send_pixels",
+                TCall::Pixels { .. } | TCall::PixelsUnfused { .. } | TCall::PixelsLoose { .. } => "send_pixels",
                 TCall::Repeat { .. } => "send_repeated_pixel",
             };
             match out {
@@ -476,6 +477,81 @@ fn run(ctx: &Ctx) -> Part {
         });
     }
     acc.count("states_with_cache_cleared_after_fault", LAST_NONE_AFTER_FAULT.load(std::sync::atomic::Ordering::Relaxed));
+
+    // (e) all histories of length 3 WITHOUT state merging (the closures above identify states by the
+    // hooked cache + pin levels; a driver with additional hidden state - a retry mask, a second cache -
+    // could hide behind that identification, so short histories are also enumerated exhaustively)
+    {
+        use rayon::prelude::*;
+        // bus level
+        for wide in [false, true] {
+            let values: Vec<u16> = if wide { vec![0x0000, 0xFFFF, 0x00FF, 0x8001, 0x5A5A] } else { vec![0x00, 0xFF, 0xA5, 0x5A, 0x01, 0x80, 0x7F] };
+            let fault_pins: Vec<u8> = if wide { vec![0, 7, 8, 15] } else { (0..8).collect() };
+            let sys = BusSys { wide, values: values.clone(), roots: vec![0x0000, if wide { 0xA55A } else { 0x3C }], max_faults: u32::MAX, fault_pins };
+            let actions = sys.actions(0);
+            let na = actions.len();
+            let firsts: Vec<(usize, usize)> = (0..sys.roots.len()).flat_map(|r| (0..na).map(move |a| (r, a))).collect();
+            let a = firsts
+                .par_iter()
+                .fold(Acc::new, |mut acc, &(r, a1)| {
+                    for &a2 in &actions {
+                        for &a3 in &actions {
+                            acc.evaluations += 1;
+                            acc.transitions += 3;
+                            let hist = [actions[a1], a2, a3];
+                            let (_, bad) = sys.exec(r, &hist);
+                            if let Some(msg) = bad {
+                                let (sig, text) = msg.split_once('|').unwrap_or(("c07", &msg));
+                                acc.violation(Violation {
+                                    prop: ctx.prop.clone(),
+                                    sig: format!("{}-depth3/{sig}", if wide { "bus16" } else { "bus8" }),
+                                    msg: format!("{text} [history of 3 set_value calls]"),
+                                    case: json!({"kind": "c07", "variant": ctx.variant, "leg": "depth3-bus", "detail": {"initial_levels": sys.roots[r], "calls": hist.iter().map(|a| { let (v, f) = sys.decode(*a); json!({"set_value": v, "fault": f.map(|x| format!("{:?}", x))}) }).collect::<Vec<_>>()}}),
+                                });
+                            }
+                        }
+                    }
+                    acc
+                })
+                .reduce(Acc::new, Acc::merge);
+            acc.count(if wide { "bus16_depth3_histories" } else { "bus8_depth3_histories" }, a.evaluations);
+            acc = acc.merge(a);
+        }
+        // interface level, fault-free
+        for wide in [false, true] {
+            let calls = iface_calls(wide);
+            let sys = IfaceSys { wide, calls: calls.clone(), roots: vec![(0x0000, true, true)], fault_pins: vec![], max_faults: 0 };
+            let n = calls.len() as u32;
+            let step = if quick { 2 } else { 1 };
+            let firsts: Vec<u32> = (0..n).collect();
+            let a = firsts
+                .par_iter()
+                .fold(Acc::new, |mut acc, &a1| {
+                    for a2 in 0..n {
+                        // in quick the third call runs over every second call, offset by the first two
+                        for a3 in (((a1 + a2) % step)..n).step_by(step as usize) {
+                            acc.evaluations += 1;
+                            acc.transitions += 3;
+                            let hist = [a1, a2, a3];
+                            let (_, bad) = sys.exec(0, &hist);
+                            if let Some(msg) = bad {
+                                let (sig, text) = msg.split_once('|').unwrap_or(("c07", &msg));
+                                acc.violation(Violation {
+                                    prop: ctx.prop.clone(),
+                                    sig: format!("{}-depth3/{sig}", if wide { "iface16" } else { "iface8" }),
+                                    msg: format!("{text} [history of 3 calls after the RAMWR preamble]"),
+                                    case: json!({"kind": "c07", "variant": ctx.variant, "leg": "depth3-iface", "detail": {"calls": hist.iter().map(|a| json!(calls[*a as usize])).collect::<Vec<_>>()}}),
+                                });
+                            }
+                        }
+                    }
+                    acc
+                })
+                .reduce(Acc::new, Acc::merge);
+            acc.count(if wide { "iface16_depth3_histories" } else { "iface8_depth3_histories" }, a.evaluations);
+            acc = acc.merge(a);
+        }
+    }
 
     // (d) extreme counts
     let mut ex = vec![(2usize, 0x8000_0000u32), (2, 0x8000_0001), (3, 1_431_655_766), (2, u32::MAX), (3, u32::MAX), (1, u32::MAX)];
